@@ -20,13 +20,14 @@ from harness.proto import Atom
 PROP = 'C12'
 TRUSTED = [
     'modelled, not verified: MarkupTemplate._match/_strip/select closure (markup.py), MatchDirective hint parsing '
-    '(directives.py), and of path.py only the test closures of SingleStepStrategy and SimplePathStrategy under '
-    'ignore_context for the generated match paths, plus Path.select for the six body paths '
+    '(directives.py), and of path.py only the test closures of SingleStepStrategy, SimplePathStrategy and '
+    'predicate-free GenericStrategy under ignore_context for the generated match paths, plus Path.select for the six body paths '
     '(. node() * text() *|text() name): hand-written Lean model tied by correspondence',
     'not modelled: the XML parser, _flatten/_apply_directives (the generator flattens its own template description: '
     'py:for unrolled, data streams spliced, py:match registrations in place), _include (no includes generated), the serializer',
-    'theorems are parametric in an abstract matcher (state, step, START/END-undo law); GenericStrategy paths '
-    '(*, //, predicates in multi-step paths) reach the real code in the oracle streams but not the Lean matcher',
+    'theorems are parametric in an abstract matcher (state, step; laws: an END undoes its START, updateonly is not read); '
+    'GenericStrategy paths with positional predicates reach the real code in the oracle streams but have no Lean matcher',
+    'the forest parser of the driver verb `tree` (specification vs code) is unverified plumbing',
     'the push-style (automaton) reading of the generator pipeline for buffer="false" is validated by correspondence, not proved equal to Python generator semantics',
 ]
 ASSUMPTIONS = [
